@@ -35,6 +35,7 @@ type PoolCase struct {
 	Lean       bool   `json:"lean,omitempty"` // tasks only do plain (non-atomic) writes; no harness synchronisation
 	PingPong   int    `json:"ping_pong,omitempty"`  // > 0: this many tiny tasks, each submitted the moment the previous one signals its completion (the submitter meets a worker that is just going idle), with a swept delay of a few spin steps
 	OpenPools  int    `json:"open_pools,omitempty"` // this many other 16-worker pools are created, used once and kept open while the case runs
+	NestedSubmit bool `json:"nested_submit,omitempty"` // gated, Tasks <= workers: every task submits one follow-up task to its own pool (while the waiter is inside Wait) before it finishes
 }
 
 // PoolObs is the observation of one pool run.
@@ -145,6 +146,9 @@ func runPoolCase(cs *PoolCase) *PoolObs {
 	for round := 0; round < rounds; round++ {
 		pre := cs.Tasks // submitted before Wait
 		n := cs.Tasks + cs.LateTasks
+		if cs.NestedSubmit {
+			n = 2 * cs.Tasks
+		}
 		lateGo := make(chan struct{})
 		lateDone := make(chan struct{})
 		lateStarted := false
@@ -152,7 +156,8 @@ func runPoolCase(cs *PoolCase) *PoolObs {
 		plain := make([]int, n) // written non-atomically by the tasks, read by the waiter after Wait
 		endSeq := make([]int64, n)
 		completedAtRoundStart := completed.Load()
-		task := func(id int) func() {
+		var task func(id int) func()
+		task = func(id int) func() {
 			return func() {
 				if cs.Lean {
 					plain[id] = id + 1
@@ -176,6 +181,9 @@ func runPoolCase(cs *PoolCase) *PoolObs {
 					parked[id] = ch
 					mu.Unlock()
 					<-ch
+					if cs.NestedSubmit && id < pre {
+						pool.Submit(task(pre + id)) // the queue is empty (Tasks <= workers): this cannot block on a full queue
+					}
 				} else if cs.SleepUs > 0 {
 					prngMu.Lock()
 					d := prng.IntN(cs.SleepUs + 1)
@@ -317,7 +325,7 @@ func runPoolCase(cs *PoolCase) *PoolObs {
 					o.SubmitOverrun = append(o.SubmitOverrun, fmt.Sprintf("round %d point %d: %d Submit calls have returned for tasks that are not finished, but %d workers plus a queue of %d can hold only %d — Submit did not block on the full queue", round, step, acc, we, 2*we, 3*we))
 				}
 				want := minInt(we, unfinished)
-				if cs.LateTasks > 0 {
+				if cs.LateTasks > 0 || cs.NestedSubmit {
 					want = 0
 				}
 				if len(keys) < want {
@@ -480,6 +488,57 @@ func runPingPong(cs *PoolCase, pool *flyt.WorkerPool, o *PoolObs, self int, st *
 	_ = sink
 }
 
+// runCloseBusyCase: w tasks are parked on the workers, `queued` more sit in the queue, and Close is called (by a
+// helper goroutine) while they do. Whatever becomes of the queued tasks, never more than w tasks are in flight.
+func runCloseBusyCase(w, queued int) (over string, seen int, incon string) {
+	self := quiesce.Self()
+	var st quiesce.Stats
+	var mu sync.Mutex
+	parked := map[int]chan struct{}{}
+	pool := flyt.NewWorkerPool(w)
+	we := effWorkers(w)
+	n := we + queued
+	for id := 0; id < n; id++ {
+		id := id
+		pool.Submit(func() {
+			ch := make(chan struct{})
+			mu.Lock()
+			parked[id] = ch
+			mu.Unlock()
+			<-ch
+		})
+	}
+	if _, ok := quiesce.Wait(self, quiesceBudget, &st); !ok {
+		return "", 0, "quiescence not reached before Close"
+	}
+	closed := make(chan struct{})
+	go func() { defer close(closed); defer func() { recover() }(); pool.Close() }()
+	for round := 0; round < 4*n+8; round++ {
+		if _, ok := quiesce.Wait(self, quiesceBudget, &st); !ok {
+			return over, seen, "quiescence not reached after Close"
+		}
+		mu.Lock()
+		k := len(parked)
+		if k > seen {
+			seen = k
+		}
+		if k > we && over == "" {
+			over = fmt.Sprintf("pool of %d workers, %d tasks parked on the workers and %d more queued when Close was called: %d tasks are in flight at once", w, we, queued, k)
+		}
+		if k == 0 {
+			mu.Unlock()
+			return over, seen, ""
+		}
+		for id, ch := range parked { // release one
+			close(ch)
+			delete(parked, id)
+			break
+		}
+		mu.Unlock()
+	}
+	return over, seen, ""
+}
+
 func judgePool(cs *PoolCase, o *PoolObs) []scen.Finding {
 	var fs []scen.Finding
 	add := func(prop, key, f string, a ...any) {
@@ -616,6 +675,21 @@ func poolLoop(c *Cfg, n int, gen func(i int) *PoolCase, each func(i int, cs *Poo
 
 func init() {
 	register(&Engine{Prop: "C08", Doc: "concurrency limit hard and usable", Gated: true, Run: runC08, Replay: func(c *Cfg, s json.RawMessage) {
+		var cb struct {
+			Family  string `json:"family"`
+			Workers int    `json:"workers"`
+			Queued  int    `json:"queued"`
+		}
+		if json.Unmarshal(s, &cb) == nil && cb.Family == "close-while-busy" {
+			defer setGCOff()()
+			over, seen, incon := runCloseBusyCase(cb.Workers, cb.Queued)
+			fmt.Println("max in flight:", seen, incon)
+			if over != "" {
+				fmt.Println(" * finding pool-over-limit-at-close:", over)
+				c.Rep.Violate("C08", "C08:pool-over-limit-at-close", over, cb)
+			}
+			return
+		}
 		var nc NestedCase
 		if json.Unmarshal(s, &nc) == nil && nc.Nested {
 			fs, seen, incon := runNestedCase(&nc)
@@ -739,6 +813,16 @@ func runC08(c *Cfg) {
 			cases = append(cases, &BatchCase{Family: "limit-inside-fallback", N: n, C: cc, Budget: 1, FB: true, GateFB: true, Items: it, Shape: map[string]string{"options": "results", "compose": "any"}[build], Build: build, ExecStyle: []string{"result", "any"}[cc%2], Gated: true, Policy: "hold-fallbacks", PSeed: uint64(cc)})
 		}
 	}
+	// stop mode: as long as nothing has failed the limit is as usable as in continue mode (also for the very first items)
+	for _, cc := range []int{2, 3, 5, 8} {
+		for _, n := range []int{cc, cc + 3, 4*cc + 8} {
+			it := make([]ItemScript, n)
+			for j := range it {
+				it[j].K = 1
+			}
+			cases = append(cases, &BatchCase{Family: "limit-stop-mode", N: n, C: cc, Stop: true, SetMode: true, Budget: 1, Items: it, Shape: "results", Build: []string{"builder", "options", "builder-mode-first"}[(cc+n)%3], ExecStyle: []string{"result", "any"}[n%2], Gated: true, Policy: []string{"last", "first", "random"}[cc%3], PSeed: uint64(cc*100 + n)})
+		}
+	}
 	// dwell cases: the controller waits 150 ms at saturated quiescent points, so behaviour triggered by time
 	// (e.g. a submit that gives up blocking after a grace period) gets its chance to exceed the limit
 	for _, cc := range []int{1, 2, 3} {
@@ -829,6 +913,33 @@ func runC08(c *Cfg) {
 			}
 		}
 	}
+	// Close called while the workers are busy and tasks are still queued: the bound holds then as well
+	func() {
+		defer setGCOff()()
+		idx := 0
+		for _, w := range []int{-1, 1, 2, 3, 8} {
+			for _, q := range []int{1, effWorkers(w), 2 * effWorkers(w)} {
+				idx++
+				if !c.Mine(idx) {
+					continue
+				}
+				cb := map[string]any{"family": "close-while-busy", "workers": w, "tasks": effWorkers(w) + q, "queued": q}
+				logCase(c, cb)
+				over, seen, incon := runCloseBusyCase(w, q)
+				r.Eval()
+				if incon != "" {
+					r.Incon(incon)
+					return
+				}
+				r.Count("pool.close_while_busy_cases", 1)
+				r.HighWater("pool.close_while_busy_in_flight", int64(seen))
+				if over != "" {
+					r.Violate("C08", "C08:pool-over-limit-at-close", over, cb)
+				}
+				r.Nontrivial(fmt.Sprintf("cb %d %d", w, q))
+			}
+		}
+	}()
 	for _, w := range []int{-1, 1, 2, 3} {
 		pcs = append(pcs, &PoolCase{Family: "pool-limit-dwell", Workers: w, Tasks: 3*effWorkers(w) + 4, Submitters: 1 + (w+1)%2, Rounds: 1, Gated: true, Policy: "first", DwellMs: 350})
 	}
@@ -888,6 +999,12 @@ func runC12(c *Cfg) {
 	// submit-on-completion chains (the submitter meets a worker that is just going idle)
 	for _, w := range []int{1, 1, 2, 3} {
 		pcs = append(pcs, &PoolCase{Family: "ping-pong", Workers: w, Tasks: 2 * w, Submitters: 1, Rounds: 1, Gated: true, Policy: "first", PingPong: c.Pick(12000, 400000)})
+	}
+	// tasks that submit a follow-up task to their own pool while another goroutine is inside Wait
+	for _, w := range []int{1, 2, 3, 8} {
+		for _, pre := range []int{1, w} {
+			pcs = append(pcs, &PoolCase{Family: "nested-submit-during-wait", Workers: w, Tasks: pre, Submitters: 1, Rounds: 2, Gated: true, Policy: []string{"first", "last", "random"}[(w+pre)%3], PSeed: uint64(w*7 + pre), NestedSubmit: true})
+		}
 	}
 	// many other pools alive at the same time (17 x 16 workers): this pool behaves as if it were alone
 	for _, w := range []int{1, 4, 16} {
